@@ -65,8 +65,8 @@ def run_variant(v):
                 try:
                     repo = Repo(tmp)
                     run = Run(prop, "quick", getattr(mod, "LEVEL", "other"), 0)
-                    mod.run(repo, run, "quick")
-                    rc = run.finish()
+                    from sa.report import run_rules
+                    rc = run_rules(mod, repo, run, "quick")
                     new = [f for f in run.findings]
                 except AnalysisError as e:
                     rc = 2
